@@ -80,6 +80,11 @@ def run(ctx: Ctx) -> None:
     pr = pd.get("processing")
     ctx.check(isinstance(pr, list) and [x.get("line") for x in pr] == [lc("p1")[0], lc("p2")[0]], "Q2", "composite: repeated keyword positions as a list in source order", lt("composite"), "", f"{pr!r}")
     ctx.check(all(not (isinstance(k2, str) and k2 == "__tokens__") for k2 in lyr.keys()) and "__position__" not in a_name, "Q2", "composite: bookkeeping popped from attribute dicts", lt("composite"), "", f"layer keys {list(lyr.keys())}")
+    # a keyword given twice: the value kept is the last one, so the position must be the last one's too
+    d1, d2 = attr("name", "first"), attr("name", "second")
+    lyr2 = cb("composite", lambda: [[tok("LAYER", SStr.atom("kw", lower_is="layer"), "layer2")], [d1, attr("type", "type2", "UNQUOTED_STRING"), d2]])
+    pd2 = lyr2.get("__position__", {})
+    ctx.check(isinstance(pd2.get("name"), dict) and pd2["name"].get("line") == lc("second")[0] and pd2["name"].get("column") == lc("second")[1], "Q2", "composite: a keyword given twice records the position of the occurrence whose value is kept", lt("composite"), "", f"NAME given twice: value of the second occurrence is kept but the recorded position is {pd2.get('name')!r} (second occurrence is at {lc('second')})")
     # key/value block
     sp = cb("string_pair", lambda: [cb("string", lambda: [tok("DOUBLE_QUOTED_STRING", SStr(['"', Atom("k", free=True), '"']), "mk")]), cb("string", lambda: [tok("DOUBLE_QUOTED_STRING", SStr(['"', Atom("v", free=True), '"']), "mv")])])
     md = cb("metadata", lambda: [tok("METADATA", SStr.atom("kw", lower_is="metadata"), "md"), sp, tok("_END", SStr.atom("kw", lower_is="end"), "mdend")])
